@@ -249,7 +249,9 @@ impl Valid {
             );
         }
         // automatic repair enabled → Delaunay certified (when the pre-state was Delaunay and valid)
-        if post.policies[2] == "EveryInsertion"
+        // automatic repair is enabled for every policy except `Never` (removal repairs
+        // unconditionally under EveryInsertion and EveryN)
+        if post.policies[2] != "Never"
             && !post.cells.is_empty()
             && crate::geom::embedded(pre, rv_pre) == crate::geom::Tri::Yes
             && crate::geom::embedded(post, rv_post) == crate::geom::Tri::Yes
@@ -262,7 +264,7 @@ impl Valid {
                 if !rd.violations.is_empty() {
                     push_violation(
                         ctx.violations,
-                        violation("C06", "not-delaunay-after-removal-with-repair", ctx.step, format!("op=remove_vertex|delaunay|d={}|{}", D, rd.violation_class()), format!("repair policy EveryInsertion, pre-state Delaunay; after removal {} exact violations, e.g. {:x?}", rd.violations.len(), rd.violations[0])),
+                        violation("C06", "not-delaunay-after-removal-with-repair", ctx.step, format!("op=remove_vertex|delaunay|d={}|{}", D, rd.violation_class()), format!("automatic repair enabled ({}), pre-state Delaunay; after removal {} exact violations, e.g. {:x?}", post.policies[2], rd.violations.len(), rd.violations[0])),
                     );
                 }
             }
